@@ -477,7 +477,7 @@ func main() {
 		childMain(os.Args[2:])
 		return
 	}
-	mode := flag.String("mode", "rt", "rt | corr | corrupt | src | hex")
+	mode := flag.String("mode", "rt", "rt | corr | corrupt | writers | src | hex")
 	seed := flag.Uint64("seed", 1, "seed")
 	n := flag.Int("n", 100, "number of cases")
 	small := flag.Bool("small", false, "small programs only")
@@ -497,6 +497,8 @@ func main() {
 		modeCorr(*seed, *n, *small)
 	case "corrupt":
 		modeCorrupt(*seed, *n)
+	case "writers":
+		modeWriters(*seed, *n)
 	case "src":
 		data, err := os.ReadFile(*file)
 		if err != nil {
